@@ -232,3 +232,29 @@ PROPS["C38"] = {
     "trusted_base": ["kani::stub of std::time::Instant::now (time stamps are not read by the verified arithmetic)", "CBMC's IEEE-754 model incl. sqrt"],
     "not_covered": ["GC callbacks on_gc_start/release/end (need &'static MMTK): they only feed statistics, whose every value is covered by the symbolic stats"],
 }
+
+PROPS["C36"] = {
+    "level": "proof",
+    "engine": "verus",
+    "technique": "Verus requires/ensures + representation invariant on TreadMill's operations, mechanically extracted from /repo each run; client lemma over the contracts",
+    "anchors": [("TreadMillSync", "src/util/treadmill.rs"), ("copy", "src/util/treadmill.rs"), ("flip", "src/util/treadmill.rs"),
+                ("collect_nursery", "src/util/treadmill.rs"), ("add_to_treadmill", "src/util/treadmill.rs")],
+    "verus": ["treadmill"],
+    "functions": ["TreadMill::{add_to_treadmill, collect_nursery, collect_mature, copy, flip, is_to_space_empty, is_from_space_empty, "
+                  "is_alloc_nursery_empty, is_collect_nursery_empty} (bodies extracted verbatim, re-homed on TreadMillSync)",
+                  "client lemma gc_cycle (one LOS collection written against the contracts only)"],
+    "explanation": "Representation invariant wf = the four sets are pairwise disjoint. Every operation has requires old.wf() (+ the "
+                   "membership preconditions from its debug_assert!s) and ensures final.wf() together with the exact value of each of the "
+                   "four sets (whole-view postcondition, frame included). The client lemma gc_cycle calls only these contracts: flip; copy "
+                   "of each marked object once; collect_nursery [; collect_mature] and proves that exactly (collected sets minus marked) is "
+                   "swept, the swept objects are in no treadmill set afterwards (cannot be swept twice), every marked object is in to_space, "
+                   "and nothing else is lost. Unbounded in the number of objects (loop invariants) and, by induction over cycles, histories.",
+    "bounds": ["none"],
+    "assumptions": ["the Mutex acquisition is dropped by extraction: mutual exclusion of the operations is assumed, not verified",
+                    "objects passed to add_to_treadmill are fresh (not already in the treadmill)",
+                    "marked objects are copied exactly once each (C18) and come from the collected sets"],
+    "trusted_base": ["vstd specifications of std::collections::HashSet and core::mem::swap", "assume_specification of core::mem::take; axiom HashSet::default() is empty",
+                     "axiom: ObjectReference obeys the hash key model; ObjectReference modelled as an opaque key",
+                     "the extraction rewrite rules listed in the evidence (rule_firings)"],
+    "not_covered": ["enumerate_objects (dyn visitor)", "LargeObjectSpace's use of the treadmill (mark/nursery bits, page release) - whole-space"],
+}
